@@ -489,16 +489,17 @@ func IsFullRangeIndex(idx ssa.Value, s ssa.Value) bool {
 		return false
 	}
 	phi, ok := bo.X.(*ssa.Phi)
-	if !ok || len(phi.Edges) != 2 {
+	if !ok {
 		return false
 	}
 	hasInit, hasStep := false, false
 	for _, e := range phi.Edges {
 		if n, ok := IntConst(e); ok && n == -1 {
 			hasInit = true
-		}
-		if e == ssa.Value(bo) {
+		} else if e == ssa.Value(bo) {
 			hasStep = true
+		} else {
+			return false
 		}
 	}
 	if !hasInit || !hasStep {
